@@ -178,6 +178,54 @@ func (c *FuncCtx) noteRange(st *State, t *Term, typ types.Type) {
 	}
 }
 
+// learnRanges tightens the recorded interval of an atom from a fact of the shape
+// atom < const, atom <= const, const < atom, const <= atom (and conjunctions of those).
+// Only used for entry preconditions: the symbols denote entry values for the whole function.
+func (c *FuncCtx) learnRanges(t *Term) {
+	switch t.Op {
+	case "and":
+		for _, a := range t.Args {
+			c.learnRanges(a)
+		}
+	case "lt", "le":
+		a, b := t.Args[0], t.Args[1]
+		// normal form keeps both sides as given; handle atom vs const
+		if isAtom(a) && b.IsConst() {
+			hi := new(big.Int).Set(b.Val)
+			if t.Op == "lt" {
+				hi.Sub(hi, bigOne)
+			}
+			if r, ok := c.ranges[a.Key()]; ok {
+				if hi.Cmp(r[1]) < 0 {
+					c.ranges[a.Key()] = [2]*big.Int{r[0], hi}
+				}
+			}
+		}
+		if isAtom(b) && a.IsConst() {
+			lo := new(big.Int).Set(a.Val)
+			if t.Op == "lt" {
+				lo.Add(lo, bigOne)
+			}
+			if r, ok := c.ranges[b.Key()]; ok {
+				if lo.Cmp(r[0]) > 0 {
+					c.ranges[b.Key()] = [2]*big.Int{lo, r[1]}
+				}
+			}
+		}
+	}
+}
+
+// fits reports whether the mathematical value t is known (by interval arithmetic over the
+// recorded ranges) to lie inside the machine type, so that no wrap-around term is needed.
+func (c *FuncCtx) fits(t *Term, k intKind) bool {
+	r, ok := (&Obligation{Ranges: c.ranges}).rangeOf(t)
+	if !ok {
+		return false
+	}
+	lo, hi := k.rng()
+	return r[0].Cmp(lo) >= 0 && r[1].Cmp(hi) <= 0
+}
+
 func (c *FuncCtx) obName(kind, detail string) string {
 	base := c.name + "/" + kind
 	if detail != "" {
@@ -207,23 +255,33 @@ func (c *FuncCtx) oblige(st *State, kind, detail string, goal *Term, at ast.Node
 // the product is also related to the expanded product of its definition (an instance of
 // l = r => l*f = r*f), so that facts about the definition's monomials reach the product.
 func (c *FuncCtx) product(st *State, a, b *Term) *Term {
-	p := Mul(a, b)
-	for _, pr := range [][2]*Term{{a, b}, {b, a}} {
-		x, y := pr[0], pr[1]
-		if y.IsConst() || y.Size() > 40 {
-			continue
+	for _, f := range c.productFacts(a, b) {
+		st.assume(f)
+	}
+	return Mul(a, b)
+}
+
+func (c *FuncCtx) productFacts(a, b *Term) []*Term {
+	var out []*Term
+	seen := map[string]bool{}
+	var expand func(x, y *Term, depth int)
+	expand = func(x, y *Term, depth int) {
+		if depth > 3 || y.IsConst() || x.IsConst() || y.Size() > 40 {
+			return
 		}
-		seen := map[string]bool{}
 		x.walk(func(t *Term) {
-			if t.Op == "var" && !seen[t.Name] {
-				seen[t.Name] = true
+			if t.Op == "var" && !seen[t.Name+"*"+y.Key()] {
+				seen[t.Name+"*"+y.Key()] = true
 				if d, ok := c.defs[t.Name]; ok && d.Size() < 200 {
-					st.assume(Eq(Mul(t, y), Mul(d, y)))
+					out = append(out, Eq(Mul(t, y), Mul(d, y)))
+					expand(d, y, depth+1)
 				}
 			}
 		})
 	}
-	return p
+	expand(a, b, 0)
+	expand(b, a, 0)
+	return out
 }
 
 // symValue materialises a symbolic value of Go type t.
@@ -360,6 +418,13 @@ func (c *FuncCtx) readHeap(st *State, h *Term, elem types.Type, addr *Term) Valu
 		return BoolV{Ne(t, ConstI(0))}
 	}
 	if t.Op == "select" {
+		if t.Args[0].Op == "store" {
+			// a read through pending stores: name the loaded value so that later terms stay small
+			v := Var(c.freshName("ld"), SInt)
+			st.assume(Eq(v, t))
+			c.noteRange(st, v, elem)
+			return IntV{v}
+		}
 		c.noteRange(st, t, elem)
 	}
 	return IntV{t}
